@@ -28,6 +28,6 @@ CONSTANTS
   EVENTS = {"Deposit","Withdraw","Delegate","Undelegate","Associate","Dissociate","Slash","ReleaseHold","EndBlock"}
   FAILBUDGET = 99
   WANTED <- c_WANTED
-VIEW View
+VIEW ViewG
 INVARIANTS EmitGoals
 CHECK_DEADLOCK FALSE
